@@ -297,6 +297,8 @@ K_C17 = [
 ]
 K_ICON_MB = H(WEB + 'c13_k_user_icon_multibyte_keep_or_drop', ['webauthn::deserialize_from_str_and_skip_if_too_long::<_, 128>'], kind='bounded',
               bound='non-ASCII texts (two-byte characters, optional ASCII tail) of 0..=299 bytes', timeout=1500)
+K_ICON_MBC = H(WEB + 'c13_k_user_icon_small_capacities', ['webauthn::deserialize_from_str_and_skip_if_too_long::<_, 2|3|4>'], kind='bounded',
+               bound='capacities 2, 3, 4; every valid UTF-8 text of up to 5 bytes')
 K_NAME = H(WEB + 'c15_k_name_present_stays_present', ['webauthn::deserialize_from_str_and_truncate::<_, 64>'], kind='bounded',
            bound='absent, or ASCII text of 0..=70 bytes', timeout=1500)
 K_C13 = [
@@ -314,6 +316,7 @@ K_C13 = [
       bound='ASCII texts of 0..=300 bytes', timeout=1500),
     H(WEB + 'c13_k_rp_icon_discarded', ['<webauthn::Icon as Deserialize>::deserialize'], kind='bounded', bound='ASCII texts of 0..=300 bytes'),
     K_ICON_MB,
+    K_ICON_MBC,
     K_NAME,
     H(WEB + 'c13_k_floor_char_boundary_contract_8', ['webauthn::floor_char_boundary'], kind='bounded',
       bound='exact UTF-8 precondition; strings <= 8 bytes', tier='thorough', timeout=2400),
@@ -416,7 +419,7 @@ PROPS['C02']['kani'] = K_C17[:5] + K_GNA + K_FILTERED_LEN + K_FILTERED_SER + GC_
 PROPS['C03']['kani'] = K_C03_HEADS + K_FILTERED_LEN + K_FILTERED_SER
 PROPS['C05']['kani'] = GC_DECODE[1:] + K_LOSSY[3:4]
 PROPS['C06']['kani'] = GC_OPTIONS
-PROPS['C12']['kani'] = GC_CAP + K_TYPE_CAP + K_LOSSY[0:1] + [K_ICON_MB]
+PROPS['C12']['kani'] = GC_CAP + K_TYPE_CAP + K_LOSSY[0:1] + [K_ICON_MB, K_ICON_MBC]
 PROPS['C15']['kani'] = GC_ROUNDTRIP + K_C18_STRINGS[:3]
 PROPS['C18']['kani'] = K_C18_STRINGS
 
